@@ -69,8 +69,9 @@ fn judge<T: Sc>(idx: usize, l: &PbLine, par: bool, rep: &mut Report) {
                 calls.push(BCall::Observations(m));
             }
             "W" => {
-                let v = if Some(pos) == lw { 2.0 } else { 3.0 };
-                calls.push(BCall::Weights(vec![T::of64(v); *p1 as usize]));
+                // (the last call: +-2 with alternating signs, as VPProblemBuilder!WData; earlier calls: 3)
+                let wv: Vec<T> = (0..*p1 as usize).map(|i| T::of64(if Some(pos) == lw { if i % 2 == 1 { -2.0 } else { 2.0 } } else { 3.0 })).collect();
+                calls.push(BCall::Weights(wv));
             }
             "E" => {
                 let mag = if Some(pos) == le {
